@@ -2,8 +2,8 @@
    arguments or the division of lines among files: composition of the pipeline theorems (C01, C02,
    C05) with the permutation invariance of the count-style aggregators (C07). *)
 From Coq Require Import List NArith ZArith Arith Permutation Bool.
-From RareV Require Import Base.Hex Model.Batch Model.Pipeline Model.AggLoop Model.Agg
-  Proofs.PipelineProof Proofs.PipelineOrder Proofs.AggLoopProof Props.C07.
+From RareV Require Import Base.Hex Base.Num Model.Batch Model.Pipeline Model.AggLoop Model.Agg
+  Proofs.PipelineProof Proofs.PipelineOrder Proofs.AggLoopProof Proofs.ReduceOrder Props.C07.
 Import ListNotations.
 
 Section C03.
@@ -42,6 +42,25 @@ Proof.
   destruct (final_complete bytes classify (input_of srcs) (errors_of srcs) x (creach_inv bytes classify c srcs nw x Hn Hr) Ha) as (_ & P & _).
   split; [apply C07_counter_perm; exact P|]. split; [apply C07_subkey_perm; exact P|].
   intros d. apply C07_table_perm. exact P.
+Qed.
+
+(* reduce with sum / count accumulators (the definition the correspondence runs; `bad` is the marker a
+   non-integer operand gives, any text that is not itself an integer): the group table is a function of
+   the multiset of keys, so it does not depend on the schedule or the tuning either *)
+Theorem pipeline_reduce bad srcs nw s : atoi bad = None -> cfg_ok c -> nw >= 1 ->
+  reach bytes classify c (init bytes srcs nw) s -> (forall s', ~ step bytes classify c s s') ->
+  a_run expr (eval_expr bad) reduce_def (consumed bytes s) = a_run expr (eval_expr bad) reduce_def (seq (input_of srcs)).
+Proof.
+  intros Hb Hc Hn Hr Ht. destruct (pipeline_final bytes classify c srcs nw s Hc Hn Hr Ht) as (_ & P & _).
+  apply reduce_sum_count_perm; [exact Hb|exact P].
+Qed.
+Theorem loop_reduce bad srcs nw x : atoi bad = None -> nw >= 1 ->
+  creach bytes classify c (init bytes srcs nw, loop0 bytes) x -> ag bytes (snd x) = ADone ->
+  a_run expr (eval_expr bad) reduce_def (sampled bytes (snd x)) = a_run expr (eval_expr bad) reduce_def (seq (input_of srcs)).
+Proof.
+  intros Hb Hn Hr Ha.
+  destruct (final_complete bytes classify (input_of srcs) (errors_of srcs) x (creach_inv bytes classify c srcs nw x Hn Hr) Ha) as (_ & P & _).
+  apply reduce_sum_count_perm; [exact Hb|exact P].
 Qed.
 
 (* two runs - any configurations, any schedules - of the same input agree *)
